@@ -327,6 +327,9 @@ pub fn dispatch(kind: &str, a: &[&str]) -> Option<String> {
         ("bl.allids", []) => all_ids(),
         ("bl.mk", [mode, h, cap, sch, h2, n2]) => mk_modes(mode, &unhex(h), cap.parse().ok()?, sch, &unhex(h2), n2.parse().ok()?)?,
         ("bl.writelim", [ts, lim]) => write_limited(ts, lim.parse().ok()?)?,
+        // call mixes (n / r|t / by<k> only), model side = extracted BinOps.reader_ops / lexer_ops
+        ("bl.mrops", [h, cap, sch, ops]) => rdr_ops(mk_reader(&unhex(h), cap.parse().ok()?, sch), ops)?,
+        ("bl.mlops", [h, ops]) => lex_ops(&unhex(h), ops)?,
         // <<< a_c08
         _ => return None,
     };
